@@ -29,6 +29,7 @@ package main
 import (
 	"errors"
 	"fmt"
+	"os"
 	"runtime"
 	"sort"
 	"strconv"
@@ -350,6 +351,72 @@ func c02Hook(point string, args ...interface{}) {
 	}
 }
 
+// c02Await waits for a cascade's wait to return. "Stuck" is decided from the absence of progress
+// (hook events, action completions) over 10 s of observed time, not from a wall-clock limit: polls
+// that come late (the whole process was not scheduled) do not count.
+func c02Await(st *c02State, done chan struct{}) bool {
+	progress := func() int64 {
+		st.mu.Lock()
+		defer st.mu.Unlock()
+		return int64(st.hooks) + atomic.LoadInt64(&c02Clock)
+	}
+	last, lastT, idle := progress(), time.Now(), 0
+	for {
+		select {
+		case <-done:
+			return true
+		case <-time.After(50 * time.Millisecond):
+		}
+		now := time.Now()
+		gap := now.Sub(lastT)
+		lastT = now
+		if gap > 400*time.Millisecond {
+			idle = 0
+			continue
+		}
+		if p := progress(); p != last {
+			last, idle = p, 0
+		} else if idle++; idle >= 200 {
+			return false
+		}
+	}
+}
+
+// c02Stuck ends the process when a wait did not return (a blocked AddEventAndWait cannot be
+// cancelled; the parent records CRASH with this line and restarts): where the goroutines are.
+func c02Stuck(result string) {
+	buf := make([]byte, 1<<20)
+	buf = buf[:runtime.Stack(buf, true)]
+	cnt := map[string]int{}
+	for _, b := range strings.Split(string(buf), "\n\n") {
+		ls := strings.Split(b, "\n")
+		var fs []string
+		for _, l := range ls[1:] {
+			if !strings.HasPrefix(l, "\t") && !strings.HasPrefix(l, "created by") {
+				f := l
+				if i := strings.LastIndex(f, "("); i > 0 {
+					f = f[:i]
+				}
+				if i := strings.LastIndex(f, "/"); i >= 0 {
+					f = f[i+1:]
+				}
+				fs = append(fs, f)
+			}
+			if len(fs) == 4 {
+				break
+			}
+		}
+		cnt[strings.Join(fs, "<")]++
+	}
+	var ks []string
+	for k, v := range cnt {
+		ks = append(ks, fmt.Sprintf("%dx %s", v, k))
+	}
+	sort.Strings(ks)
+	fmt.Fprintf(os.Stderr, "C02-HANG wait did not return: %s || %s\n", result, strings.Join(ks, " | "))
+	os.Exit(7)
+}
+
 type c02Fin interface{ IsFinished() bool }
 
 func c02Run(payload string) string {
@@ -493,11 +560,7 @@ func c02Run(payload string) string {
 				}
 				close(done)
 			}()
-			select {
-			case <-done:
-				r.ret = true
-			case <-time.After(8 * time.Second):
-			}
+			r.ret = c02Await(st, done)
 		}()
 	}
 	wg.Wait()
@@ -603,9 +666,7 @@ func c02Run(payload string) string {
 		result += " ~ " + strings.Join(ts, " ; ")
 	}
 	if !allRet {
-		// a blocked AddEventAndWait cannot be cancelled: the process is restarted by the parent
-		go func() { time.Sleep(50 * time.Millisecond); panic("C02: wait did not return: " + result) }()
-		time.Sleep(time.Second)
+		c02Stuck(result)
 	}
 	return result
 }
@@ -739,11 +800,7 @@ func c02RunEcal(plan *c02Plan, st *c02State) string {
 				st.mu.Unlock()
 				close(done)
 			}()
-			select {
-			case <-done:
-				r.ret = true
-			case <-time.After(8 * time.Second):
-			}
+			r.ret = c02Await(st, done)
 		}()
 	}
 	wg.Wait()
@@ -831,8 +888,7 @@ func c02RunEcal(plan *c02Plan, st *c02State) string {
 		result += " ~ " + strings.Join(ts, " ; ")
 	}
 	if !allRet {
-		go func() { time.Sleep(50 * time.Millisecond); panic("C02: wait did not return: " + result) }()
-		time.Sleep(time.Second)
+		c02Stuck(result)
 	}
 	return result
 }
